@@ -1,6 +1,6 @@
 (* C18 — shutdown at any moment fails pending work and leaves nothing running.
    Only statements here; every proof is [exact <lemma of Proofs/C18.v>]. *)
-From Verif Require Import Lib.Py Lib.Tactics Model.C18 Proofs.C18.
+From Verif Require Import Lib.Py Lib.Tactics Model.C18 Proofs.C18 Proofs.C18Inv Proofs.C18Req.
 Open Scope Z_scope.
 
 (* The Shutdown step, from any state that is not yet shut down and whose cancellable timers are all referenced from
@@ -58,21 +58,40 @@ Theorem C18_expiry_timers_find_their_key : forall es u m t, G (mm (fst (run (ini
 Proof. exact reachable_G. Qed.
 Print Assumptions C18_expiry_timers_find_their_key.
 
-(* Composition over whole histories: any events before (datagrams included), Shutdown at that moment, any in-scope
-   events after.  PARTIAL: [timers_owned] at the moment of shutdown is a hypothesis.  Missing: the proof that it is
-   an invariant of every reachable state (it needs the NSTART bookkeeping invariant "one exchange per remote, and
-   that remote has a backlog entry", so that _add_exchange never overwrites a live entry and orphans its timer).
-   The check evaluates the decision procedure [orphans] on every state of every generated history, in the model and
-   (by handle identity) on the real MessageManager. *)
-Theorem C18_shutdown_at_any_moment_partial : forall u m t before after xs,
+(* every retransmission / empty-ACK timer of a context that has not been shut down is referenced from
+   _active_exchanges or _piggyback_opportunities (so MessageManager.shutdown can cancel it), in every state reachable
+   from a fresh context by any events.  Rests on the NSTART bookkeeping invariant WFm of Proofs/C18Inv.v. *)
+Theorem C18_timers_always_owned : forall es u m t, forallb not_shutdown es = true ->
+  timers_owned (mm (fst (run (init u m t) es))) /\ exists xs, exchanges (mm (fst (run (init u m t) es))) = Some xs.
+Proof. exact reachable_owned. Qed.
+Print Assumptions C18_timers_always_owned.
+
+(* in every reachable state, a submitted request that has not been settled (no response / failure / cancellation; for an
+   observe request: no end of the observation) has its entry in outgoing_requests *)
+Theorem C18_unsettled_requests_are_outstanding : forall es u m t,
+  NoDup (map fst (reqs_of es)) -> 0 <= t -> t + Z.of_nat (length es) < 2 ^ 64 ->
+  TI (tm (fst (run (init u m t) es))) /\ tracked (reqs_of es) (tm (fst (run (init u m t) es))) (concat (snd (run (init u m t) es))).
+Proof. exact unsettled_requests_are_outstanding. Qed.
+Print Assumptions C18_unsettled_requests_are_outstanding.
+
+(* THE PROPERTY over whole histories, from a fresh context, with no hypothesis on states: for every [before] (any
+   events, datagrams included) and every [after] (in-scope events), where the only conditions are on the event lists
+   themselves (Shutdown is not called twice, request labels are distinct, fewer than 2^64 tokens are drawn):
+   the Shutdown step cancels every handler and fails every table entry with a library error and returns; every
+   request ever submitted is settled by then; afterwards nothing is sent, raised, delivered or started; the remaining
+   timers run out. *)
+Theorem C18_shutdown_at_any_moment : forall u m t before after, wf_history t before after ->
   let s := fst (run (init u m t) before) in
-  exchanges (mm s) = Some xs -> timers_owned (mm s) -> forallb in_scope after = true ->
+  let outs := concat (snd (run (init u m t) before)) in
   let s' := fst (step s Shutdown) in
-  snd (step s Shutdown) = map (fun i => OHCancel (i_h i)) (ilist (tm s)) ++ flat_map shutdown_outcome (olist (tm s)) ++ [OShutdownDone] /\
+  let out := snd (step s Shutdown) in
+  out = map (fun i => OHCancel (i_h i)) (ilist (tm s)) ++ flat_map shutdown_outcome (olist (tm s)) ++ [OShutdownDone] /\
+  forallb lib_outcome out = true /\
+  (forall q r mt ob, In (ClientRequest q r mt ob) before -> exists o, In o (outs ++ out) /\ settles ob q o = true) /\
   forallb (forallb quiet) (snd (run s' after)) = true /\
   pending (mm (fst (run (fst (run s' after)) (repeat Fire (length (forgets (mm (fst (run s' after))))))))) = [].
-Proof. exact shutdown_at_any_moment_partial. Qed.
-Print Assumptions C18_shutdown_at_any_moment_partial.
+Proof. exact shutdown_at_any_moment. Qed.
+Print Assumptions C18_shutdown_at_any_moment.
 Theorem C18_orphans_check_sound : forall s, orphans s = 0 -> timers_owned s.
 Proof. exact orphans_zero. Qed.
 Print Assumptions C18_orphans_check_sound.
@@ -86,6 +105,10 @@ Theorem C18_f13_refuted :
   snd (fire (fst (shutdown s))) = [].
 Proof. exact f13_refuted. Qed.
 Print Assumptions C18_f13_refuted.
+
+(* non-vacuity of C18_shutdown_at_any_moment: a busy history and a continuation satisfy wf_history *)
+Example C18_busy_history_wf : wf_history 0 busy_history [Fire; Advance 300000000; ClientRequest 9 1 CON true; HandlerRespond 0 69 true None; TransportError 1].
+Proof. exact busy_history_wf. Qed.
 
 (* non-vacuity: a reachable busy state (4 outstanding requests of which one running observation and two queued behind
    NSTART, 3 running handlers, an exchange awaiting its ACK, a pending empty-ACK timer, a separate response in the
